@@ -17,7 +17,7 @@ import oshar
 PROPERTY = 'C09'
 CICADA = os.path.join(hsupport.VERIF, 'build/bin/debug/cicada')
 HELPERS = os.path.join(hsupport.VERIF, 'build/helpers')
-BUDGET = {'quick': 900, 'thorough': 3000}
+BUDGET = {'quick': 900, 'thorough': 1500}
 BOUNDS = {'quick': dict(val_len=1, text_len=2), 'thorough': dict(val_len=2, text_len=3)}
 ASSUMPTIONS = [
     'inductive step over two names A, B: every combination of {absent, shell variable, exported, both} for A (B: absent or shell variable) with symbolic values of <= val_len characters; one operation; operands symbolic (<= val_len characters, arbitrary scalars except NUL/newline and the single quote they are written in)',
